@@ -138,7 +138,7 @@ class FnCtx:
             sym = {"Add": "+", "Sub": "-", "Mult": "*", "FloorDiv": "/"}.get(opn)     # Z./ is floor division, like //
             if sym is None: fail(node, "integer operator")
             return "(%s %s %s)%%Z" % (a, sym, b), "Z"
-        f = {"Add": "fadd", "Sub": "fsub", "Mult": "fmul"}.get(opn)
+        f = {"Add": "fadd", "Sub": "fsub", "Mult": "fmul", "FloorDiv": "ffloordiv", "Mod": "fmodulo"}.get(opn)
         if f is None: fail(node, "float operator")
         return "(%s A %s %s)" % (f, self.coerce(a, ta, "F", node), self.coerce(b, tb, "F", node)), "F"
 
@@ -182,7 +182,8 @@ class FnCtx:
                 return "(%s A %s)" % (fn, self.coerce(c, t, "F", node)), "Z"
             c, t = self.ex(inner, env)
             if t == "Z": return c, "Z"
-            fail(node, "int() of a float")
+            if t == "F": return "(fint A %s)" % c, "Z"          # truncation towards zero
+            fail(node, "int() of this type")
         if f in ("float",) and len(args) == 1:
             c, t = self.ex(args[0], env)
             return self.coerce(c, t, "F", node), "F"
@@ -625,6 +626,10 @@ class Translator:
         res = frag.get("result")
         def k_end(e):
             if res is None: return ctx.finish("tt", "none", stmts[0])
+            if isinstance(res, (list, tuple)):
+                for r_ in res:
+                    if r_ not in e: raise Unsupported("fragment %s does not define %s" % (frag["name"], r_))
+                return ctx.finish("(" + ", ".join(r_.lstrip("_") for r_ in res) + ")", ("tuple", [e[r_] for r_ in res]), stmts[0])
             if res not in e: raise Unsupported("fragment %s does not define %s" % (frag["name"], res))
             return ctx.finish(res.lstrip("_"), e[res], stmts[0])
         body = ctx.block(stmts, env, k_end)
@@ -690,6 +695,26 @@ def locate_force_pair(tree):
     if len(tail) < 3 or ast.unparse(tail[0].test) != "np.size(values) == 0" or ast.unparse(tail[1]) != "min_, max_ = (np.min(values), np.max(values))":
         raise Unsupported("_force_bin_existence: head of the array branch changed: %s" % ast.unparse(tail[1]) if len(tail) > 1 else "?")
     return tail[2:]
+
+def locate_tick_factors(tree):
+    fn = find_method(tree, "TimeTickHandler", "get_time_ticks")
+    body = [n for n in fn.body if not (isinstance(n, ast.Expr) and isinstance(n.value, ast.Constant))]
+    # [if edge: return; if center: return; width = ...; min_factor = ...; if ...: min_factor += 1; max_factor = ...; return list(np.arange(min_factor, max_factor + 1) * width)]
+    if len(body) != 7 or ast.unparse(body[2].targets[0]) != "width" or ast.unparse(body[6]) != "return list(np.arange(min_factor, max_factor + 1) * width)":
+        raise Unsupported("TimeTickHandler.get_time_ticks: shape changed")
+    if ast.unparse(body[2].value) != "level[1] * self.LEVELS[level[0]]": raise Unsupported("TimeTickHandler.get_time_ticks: width changed")
+    return body[3:6]
+
+def build_ticks(src):
+    tr = Translator(src)
+    o = tr.out; o.extend([HEADER[0] % "src/physt"] + HEADER[1:])
+    tk = Kernel(name="TK", file="plotting/common.py", cls="TimeTickHandler", record=None, prefix="tk", fields=[], dropped=set(), defaults={}, rewrite={}, methods=[])
+    tk.field_types = {}; tk.method = lambda name: None
+    tr.emit_fragment(tk, dict(name="g_tick_factors", where="TimeTickHandler.get_time_ticks (first and last multiple)", locate=locate_tick_factors,
+                              params=[("min_", "F"), ("max_", "F"), ("width", "F")], result=["min_factor", "max_factor"], ret=("tuple", ["Z", "Z"])))
+    o.append("")
+    o.append("End PySrc.")
+    return "\n".join(o) + "\n"
 
 def kernels(tr):
     fw = Kernel(name="FW", file="binnings.py", cls="FixedWidthBinning", record="fwst", prefix="fw", ctor_name=None,
@@ -799,7 +824,7 @@ def build_merge(src):
     o.append("End PySrc.")
     return "\n".join(o) + "\n"
 
-GROUPS = [("PyFW", build_fw), ("PyStats", build_stats), ("PyMerge", build_merge)]
+GROUPS = [("PyFW", build_fw), ("PyStats", build_stats), ("PyMerge", build_merge), ("PyTicks", build_ticks)]
 
 def main():
     src = "/repo/src/physt"; outdir = None
